@@ -76,6 +76,14 @@ func c06Compare(c *fw.Ctx, label string, n dst.Node, fields map[string]bool) (ok
 			}
 		}
 	}
+	if pk, ok := cl.(*dst.Package); ok {
+		for k, o := range pk.Imports {
+			if o != nil {
+				c.Violate("clone-keeps-object", "clone-keeps-object:Package.Imports", label+": the cloned package still links to the object of imported package "+k, "")
+				ok = false
+			}
+		}
+	}
 	// no shared storage
 	if ov := refl.Overlap(refl.Reach(n, false), refl.Reach(cl, false)); len(ov) > 0 {
 		c.Violate("clone-aliases", "clone-aliases:"+tn, fmt.Sprintf("%s: %d shared locations, first: %s", label, len(ov), ov[0]), "")
